@@ -20,12 +20,12 @@ CLAIMED.update({
  "C16": dict(
    category="exploration", design="DESIGN.md §3 C16",
    technique="runtime monitoring: N fresh processes per input, byte comparison of stdout / exit status / WARNING lines",
-   text="Tie-rich hand-built inputs for all five device types (k identical groups, equal crypto peers, multi-option rule differences, many same-kind raw objects, unused raw objects of different kinds sharing one name, a raw ACL referenced by two anchors of different kinds, several NSX gateway policies new at once, several input problems of one kind at once, ties on the Netspoc side, several users sharing an object), one pair holding every rule spelling the Linux normaliser rewrites, every file-mode pair of the repository's test data and generated convergence pairs of all five device types are each executed by 16 (quick) / 64 (thorough) fresh drc processes; any difference in script, exit status, WARNING>>> or ERROR>>> lines is a violation.",
+   text="Tie-rich hand-built inputs for all five device types (k identical groups, equal crypto peers, multi-option rule differences, many same-kind raw objects, unused raw objects of different kinds sharing one name, a raw ACL referenced by two anchors of different kinds, several NSX gateway policies new at once, several input problems of one kind at once, ties on the Netspoc side, several users sharing an object), one pair holding every rule spelling the Linux normaliser rewrites, a Linux pair with six deleted, six added and six replaced routes, every file-mode pair of the repository's test data and generated convergence pairs of all five device types are each executed by 16 (quick) / 64 (thorough) fresh drc processes; any difference in script, exit status, WARNING>>> or ERROR>>> lines is a violation.",
    note="Go randomises map iteration per range statement; N runs sample the orders, they do not enumerate them. ERROR>>> text and info lines are outside the statement and only recorded as anomalies."),
  "C18": dict(
    category="exploration", design="DESIGN.md §3 C18",
    technique="runtime monitoring: order predicates over the observed effective target (script of drc EMPTY_DEVICE B) with uniquely tagged lines",
-   text="A combination table (device type x parts x ACL/chain shape x APPEND mode x raw line pattern incl. multi-table Linux raw files with and without COMMIT and further object kinds from raw/IPv6: routes, an ACL of its own, an object-group; PAN-OS parts with a second vsys and NSX parts with three policies in every other variant; ~800 cases, enumerated completely in thorough) plus non-mergeable raw entries (unknown command, unbound, bound twice in every binding order, name clash, reserved names) is run through the real drc; completeness (exactly once), per-part order, raw-first and APPEND placement are checked on the emitted script, and non-mergeable entries must give exit 1 or a warning naming them.",
+   text="A combination table (device type x parts x ACL/chain shape x APPEND mode x raw line pattern incl. multi-table Linux raw files with and without COMMIT, Netspoc chains in both spellings (target last / target first with conditional DROP rules) and further object kinds from raw/IPv6: routes, an ACL of its own, an object-group; PAN-OS parts with a second vsys and NSX parts with three policies in every other variant; ~800 cases, enumerated completely in thorough) plus non-mergeable raw entries (unknown command, unbound, bound twice in every binding order, name clash, reserved names) is run through the real drc; completeness (exactly once), per-part order, raw-first and APPEND placement are checked on the emitted script, and non-mergeable entries must give exit 1 or a warning naming them.",
    note="The effective target is observed indirectly through the add-everything script for an empty device; PAN-OS Netspoc rulebases are generated without explicit deny rules; NSX order is by sequence number, only completeness is checked there."),
 })
 
